@@ -60,6 +60,38 @@ Fixpoint scan (fuel : nat) (pc : N) (bs : bytes) (st : list body) (acc : list it
 Definition build (items : list item) : table :=
   fold_left (fun m it => PM.add (key (it_pc it)) (it_body it, it_n it) m) items (PM.empty _).
 
+(* Dead code (e.g. the Call of `foo (return)`, the TryEnd after a Throw) is not checked: a linear pass
+   marks the instruction starts that the entry, a fall-through, a jump target or a Function reaches.
+   The marking needs no proof: the table is built from the marked items only, and check_item demands that
+   every successor of a marked item is in the table, so an unsound marking makes the verifier reject. *)
+Definition marks := PM.t unit.
+Definition marked (s : marks) (pc : N) : bool :=
+  match PM.find (key pc) s with Some _ => true | None => false end.
+
+Definition live_step (st : marks * bool) (it : item) : marks * bool :=
+  let '(s, cur) := st in
+  let pc := it_pc it in
+  let i := it_i it in
+  let k := it_k it in
+  if cur || marked s pc then
+    let s1 := PM.add (key pc) tt s in
+    let s2 := match jump_targets i pc k with
+              | Some ts => fold_left (fun m t => PM.add (key t) tt m) ts s1
+              | None => s1
+              end in
+    if i_op i =? OP_Function
+    then (PM.add (key (pc + k)) tt (PM.add (key (next_pc i pc k)) tt s2), false)
+    else (s2, falls_through i)
+  else (s, false).
+
+(* items: the scan's result (reverse code order); two passes so that one level of backward-only targets
+   is propagated *)
+Definition live_items (items : list item) : list item :=
+  let order := rev items in
+  let s1 := fst (fold_left live_step order (PM.add (key 0) tt (PM.empty _), false)) in
+  let s2 := fst (fold_left live_step order (s1, false)) in
+  filter (fun it => marked s2 (it_pc it)) items.
+
 Definition in_body (m : table) (t b n : N) : bool :=
   match PM.find (key t) m with
   | Some (b', n') => (b' =? b) && (n' =? n)
@@ -98,8 +130,9 @@ Definition scan_chunk (c : bytes) : option (list item) :=
 Definition wf_chunk (c : bytes) (nconsts : N) : bool :=
   match scan_chunk c with
   | Some items =>
-      let m := build items in
-      forallb (check_item m nconsts) items &&
+      let live := live_items items in
+      let m := build live in
+      forallb (check_item m nconsts) live &&
       match PM.find (key 0) m with
       | Some (b, _) => b =? 0
       | None => false
@@ -111,8 +144,9 @@ Definition wf_chunk (c : bytes) (nconsts : N) : bool :=
 Definition first_bad (c : bytes) (nconsts : N) : list N :=
   match scan_chunk c with
   | Some items =>
-      let m := build items in
-      match filter (fun it => negb (check_item m nconsts it)) (rev items) with
+      let live := live_items items in
+      let m := build live in
+      match filter (fun it => negb (check_item m nconsts it)) (rev live) with
       | it :: _ => [it_pc it; i_op (it_i it)]
       | [] => []
       end
